@@ -79,6 +79,9 @@ class Bag(N):
     lp: Meta[Optional[List[Path]]]
     le: Param[Optional[List[Color]]]
     ddd: Param[Optional[Dict[str, Dict[str, Dict[str, int]]]]]
+    # nested containers of configurations WITH a default (meta-flagged members two levels down)
+    llc: Param[List[List[N]]] = [[]]
+    dlc: Param[Dict[str, List[N]]] = {"a": []}
 
 
 class Req(N):
